@@ -1,0 +1,60 @@
+//go:build verif
+
+package verifhook
+
+import (
+	"encoding/json"
+	"fmt"
+	"os"
+	"runtime"
+	"strconv"
+	"strings"
+	"sync"
+)
+
+// When VERIF_TRACE_FILE is set, every hook event of the process is appended to that file as one
+// JSON line with a process-wide sequence number taken under a mutex. This lets the repository's
+// own tests (built with -tags verif) produce traces for validation against the specifications.
+func init() {
+	path := os.Getenv("VERIF_TRACE_FILE")
+	if path == "" {
+		return
+	}
+	f, err := os.OpenFile(path, os.O_CREATE|os.O_APPEND|os.O_WRONLY, 0o644)
+	if err != nil {
+		return
+	}
+	var mu sync.Mutex
+	seq := 0
+	pid := os.Getpid()
+	emit := func(m map[string]any) {
+		mu.Lock()
+		seq++
+		m["seq"] = seq
+		m["pid"] = pid
+		b, _ := json.Marshal(m)
+		f.Write(append(b, '\n'))
+		mu.Unlock()
+	}
+	goid := func() int64 {
+		var buf [64]byte
+		n := runtime.Stack(buf[:], false)
+		s := strings.TrimPrefix(string(buf[:n]), "goroutine ")
+		if i := strings.IndexByte(s, ' '); i > 0 {
+			id, _ := strconv.ParseInt(s[:i], 10, 64)
+			return id
+		}
+		return 0
+	}
+	Set(&Hooks{
+		Write: func(target any, off int64, p []byte, n int, err error) {
+			emit(map[string]any{"ev": "write", "obj": fmt.Sprintf("%p", target), "off": off, "len": len(p), "n": n, "err": err != nil, "g": goid()})
+		},
+		Truncate: func(target any, size int64, err error) {
+			emit(map[string]any{"ev": "truncate", "obj": fmt.Sprintf("%p", target), "size": size, "err": err != nil, "g": goid()})
+		},
+		Gate: func(obj any, method, point string) {
+			emit(map[string]any{"ev": "gate", "obj": fmt.Sprintf("%p", obj), "kind": fmt.Sprintf("%T", obj), "m": method, "p": point, "g": goid()})
+		},
+	})
+}
